@@ -152,7 +152,7 @@ def parseFlags (f : Flags α) : Kwargs α :=
     density := f.density.map PyVal.num,
     rmax := some (match f.rmax with | some v => v | none => ((50:Nat):α)),
     rpoints := some (match f.rpoints with | some v => v | none => ((5000:Nat):α)),
-    rdelta := f.rdelta,
+    rdelta := (match f.rdelta with | some d => if Cmp.ne d ((0:Nat):α) then some d else none | none => none),   -- `if args.Rdelta:` — 0.0 is falsy
     hasFF := true,
     cutoff := some (match f.cutoff with | some c => PyVal.num c | none => PyVal.none),
     lorch := some (PyVal.bool f.lorch),
